@@ -25,7 +25,7 @@
     Hypothesis [data_named_ok] = what rustc guarantees before a derive runs: the fields of a braced
     struct / variant / union are named, with pairwise distinct names; tuple fields are unnamed. *)
 From Coq Require Import List String Bool.
-From Educe.Proofs Require Import P_C01f.
+From Educe.Proofs Require Import P_C01f P_C01g.
 Import ListNotations.
 Open Scope string_scope.
 
@@ -103,8 +103,10 @@ Print Assumptions C01_no_unsafe.
       Deref, DerefMut            a struct with exactly one field; an enum with >= 1 variant, each
                                  with exactly one field
       Into                       never: the documented form is `Into(Type)`
+    Several traits at once: [C01_documented_accepted_flags] below.
     MISSING (hence `_partial`): requests with parameters (`name = ..`, `bound(..)`, `method(..)`,
-    `ignore`, `rank`, `Into(T)` ..), several traits at once, types with attributes. *)
+    `ignore`, `rank`, `Into(T)` ..), types with variant / field attributes (see Properties/C01b.v
+    for what is proved about field-level attributes). *)
 Theorem C01_documented_accepted_partial :
   forall (F : features) (d : dinput) (t : trait),
     has_trait t F = true ->
@@ -113,6 +115,24 @@ Theorem C01_documented_accepted_partial :
     exists items, expand F d = Ok items.
 Proof. exact expand_accepts_flag. Qed.
 Print Assumptions C01_documented_accepted_partial.
+
+(** ** several traits in one request: `#[educe(T1, T2, .., Tn)]` (any non-empty duplicate-free list
+    of enabled traits other than `Into`, in ANY order) on a type without other attributes is
+    accepted as soon as every flag is accepted alone -- no handler refuses because of another
+    trait's presence.  (The companions write nothing of their own when their primary is educed too --
+    Copy beside Clone, Eq beside PartialEq, PartialOrd beside Ord: the primary's handler writes both
+    impls -- so non-emptiness of the result needs the primary's items; that is the case analysis
+    of the proof.)  Still `_partial` as a converse: no parameters, no variant / field attributes. *)
+Theorem C01_documented_accepted_flags :
+  forall (F : features) (d : dinput) (ts : list trait),
+    ts <> [] -> NoDup ts ->
+    (forall t, In t ts -> has_trait t F = true) ->
+    d_attrs d = [educe_flags ts] ->
+    plain_data (d_data d) ->
+    (forall t, In t ts -> flag_accepted t (d_data d)) ->
+    exists items, expand F d = Ok items.
+Proof. exact expand_accepts_flags. Qed.
+Print Assumptions C01_documented_accepted_flags.
 
 (** an enum without explicit discriminants meets the side condition of PartialOrd / Ord *)
 Theorem C01_implicit_discriminants :
@@ -231,6 +251,37 @@ Module Example.
     - apply (C01_documented_accepted_partial all_traits _ TPartialOrd); try reflexivity; [exact Hp|].
       eexists. vm_compute. reflexivity.
   Qed.
+  (** several flags: the eleven flag-able traits at once on a one-field struct; the hypotheses of
+      [C01_documented_accepted_flags] are met, and the model indeed answers Ok with 11 impls
+      + the companions folded into their primaries *)
+  Definition one_field : data := DStruct (FNamed [fld [] (Some "a") [I "u8"]]).
+  Definition eleven : list trait :=
+    [TOrd; TDebug; TClone; TCopy; TPartialEq; TEq; TPartialOrd; THash; TDefault; TDeref; TDerefMut].
+  Definition d_eleven : dinput :=
+    {| d_attrs := [educe_flags eleven]; d_name := "T"; d_generics := no_generics; d_data := one_field |}.
+  Example accepted_eleven :
+    (exists its, expand all_traits d_eleven = Ok its) /\
+    (match expand all_traits d_eleven with Ok its => List.length its | _ => 0 end) = 11.
+  Proof.
+    split; [|vm_compute; reflexivity].
+    apply (C01_documented_accepted_flags all_traits d_eleven eleven).
+    - discriminate.
+    - unfold eleven. repeat constructor; cbn [In]; intuition discriminate.
+    - intros t Ht. unfold eleven in Ht. cbn [In] in Ht.
+      repeat (destruct Ht as [<-|Ht]; [reflexivity|]). destruct Ht.
+    - reflexivity.
+    - intros f [<-|[]]. reflexivity.
+    - intros t Ht. unfold eleven in Ht. cbn [In] in Ht.
+      repeat (destruct Ht as [<-|Ht]; [cbn; try exact I; try (eexists; reflexivity)|]). destruct Ht.
+  Qed.
+  (** the side conditions are needed flag by flag: one refused flag refuses the request *)
+  Example flags_refused_when_one_is :
+    expand all_traits {| d_attrs := [educe_flags [TClone; TDeref]]; d_name := "T"; d_generics := no_generics;
+                         d_data := two_variants |} = Err E_no_unit_variant /\
+    expand all_traits {| d_attrs := [educe_flags [TClone; TClone]]; d_name := "T"; d_generics := no_generics;
+                         d_data := two_variants |} = Err E_reuse_trait.
+  Proof. vm_compute. split; reflexivity. Qed.
+
   Example refused_outside_the_side_conditions :
     expand all_traits (plain "Debug" (DEnum [])) = Err E_debug_unit_enum_name /\
     expand all_traits (plain "Default" two_variants) = Err E_default_no_variant /\
